@@ -233,4 +233,14 @@ with tc_stmt (S : tenv) (s : cstmt) : bool :=
   end.
 Definition tc_def (d : cdef) : bool := tc_stmt (ctx_tenv (cdctx d)) (cdbody d).
 Definition tc_prog : bool := forallb tc_def (cpdefs p).
+(* the entry definition takes integers *)
+Definition tc_entry : bool :=
+  match cpdefs p with
+  | d :: _ => forallb (fun b => cty_eqb (cbty b) CI64) (cdctx d)
+  | [] => true
+  end.
 End Types.
+
+(* the static side condition of the preservation theorems: one of the two syntactic guards, or typing *)
+Definition static_ok (p : cprog) : bool :=
+  sg_prog false true p || sg_prog true false p || (tc_prog p && tc_entry p).
